@@ -69,7 +69,7 @@ def r05_1(run):
     t = table(run)
     run.floor('R05.1', 'automat upon rows', len(t.rows), 16)
     run.floor('R05.1', 'automat states', len(t.states), 6)
-    run.floor('R05.1', 'automat outputs', len(t.outputs), 9)
+    run.floor('R05.1', 'automat outputs', len(t.outputs), 6)
     direct, deliver = deliver_units(run)
     run.floor('R05.1', 'delivery sites (self._sender.dataReceived)', len(direct), 1)
     # (a) _make_connection only on success rows into relaying
@@ -120,7 +120,12 @@ def r05_1(run):
             if any(o in deliver for o in outs[i + 1:]):
                 # automat passes the input's arguments to every output
                 later = [o for o in outs[i + 1:] if o in deliver][0]
-                if len(t.outputs[later].params) == len(t.inputs[r['input']].params):
+                # automat hands an output those of the input's arguments whose *names* its signature has (_filterArgs): it can run
+                # iff every parameter it requires is a parameter of the input
+                on, inn = t.outputs[later].node, t.inputs[r['input']].node
+                oargs = [a.arg for a in on.args.args[1:]]
+                required = oargs[:len(oargs) - len(on.args.defaults)] if on.args.defaults else oargs
+                if set(required) <= set(a.arg for a in inn.args.args[1:]):
                     ok = True
                 else:
                     why = 'output %s cannot take the arguments of input %s' % (later, r['input'])
